@@ -33,6 +33,9 @@ def parseParam (t : String) : Option Param :=
   | "#" => some .num
   | "?" => some .question
   | "0" => some .zero
+  | "-" => some .hyphen
+  | "$" => some .dollar
+  | "!" => some .bang
   | _ =>
     match t.toNat? with
     | some n => some (.pos n)
@@ -86,6 +89,10 @@ mutual
         let s ← decChars (tok.drop 1).toString
         let (us, rest) ← parseUnits rest
         some (.sq s :: us, rest)
+      else if tok.startsWith "Q" then do
+        let s ← decChars (tok.drop 1).toString
+        let (us, rest) ← parseUnits rest
+        some (.dsq s :: us, rest)
       else do
         let (u, rest) ← parseTUnit tok rest
         let (us, rest) ← parseUnits rest
@@ -138,6 +145,18 @@ def parseWord (toks : List String) : Option Word :=
   | some (us, []) => some (mkWord us)
   | _ => none
 
+/-- several words separated by the token `;;` -/
+def parseWords (toks : List String) : Option (List Word) :=
+  let rec split (cur : List String) (acc : List (List String)) : List String → List (List String)
+    | [] => (cur.reverse :: acc).reverse
+    | t :: ts => if t = ";;" then split [] (cur.reverse :: acc) ts else split (t :: cur) acc ts
+  (split [] [] toks).mapM parseWord
+
+def wordToText : Word → Option (List TextUnit)
+  | .nil => some []
+  | .cons (.unq u) w => (wordToText w).map (u :: ·)
+  | .cons _ _ => none
+
 def parseValue (t : String) : Option (Option Value) :=
   if t = "U" then some none
   else if t.startsWith "s" then (decChars (t.drop 1).toString).map (fun s => some (.scalar s))
@@ -155,6 +174,8 @@ def initialEnv : Env :=
 structure ReadOpts where
   raw : Bool := false
   n : Nat := 1
+  ctx : String := "arg"
+  portable : Bool := false
 
 def applyState (st : Env × ReadOpts) (tok : String) : Option (Env × ReadOpts) :=
   let (env, ro) := st
@@ -164,6 +185,11 @@ def applyState (st : Env × ReadOpts) (tok : String) : Option (Env × ReadOpts) 
     else if k = "st" then v.toNat?.map (fun n => ({ env with exitStatus := n }, ro))
     else if k = "raw" then some (env, { ro with raw := v = "1" })
     else if k = "n" then v.toNat?.map (fun n => (env, { ro with n := n }))
+    else if k = "ctx" then some (env, { ro with ctx := v })
+    else if k = "portable" then some (env, { ro with portable := v = "1" })
+    else if k = "fl" then some ({ env with flags := v.toList }, ro)
+    else if k = "pid" then v.toNat?.map (fun n => ({ env with mainPid := n }, ro))
+    else if k = "bg" then v.toNat?.map (fun n => ({ env with lastAsync := n }, ro))
     else if k = "pos" then
       match v.splitOn ":" with
       | n :: vs => if n.toNat? = some vs.length then (vs.mapM decChars).map (fun l => ({ env with pos := l }, ro)) else none
@@ -203,9 +229,67 @@ def obsW (r : Env × Except Err (List (List Char))) : String :=
   | (env, .ok fs) => showFields fs ++ " v=" ++ showVars env
   | (env, .error e) => "err=" ++ showErr e ++ " v=" ++ showVars env
 
-def obsR (st : Bool) (vals : List (List Char)) : String :=
+def obsSingle (r : Env × Except Err (List Char)) : Env × Except Err (List (List Char)) :=
+  match r with
+  | (env, .ok v) => (env, .ok [v])
+  | (env, .error e) => (env, .error e)
+
+/-- the contexts in which the harness places the words -/
+def runCtx (spec : Bool) (ctx : String) (env : Env) (ws : List Word) : Option (Env × Except Err (List (List Char))) :=
+  let multi := fun (e : Env) (w : Word) => if spec then specExpandWordMultiple e w else expandWordMultiple e w
+  let rec many (e : Env) : List Word → Env × Except Err (List (List Char))
+    | [] => (e, .ok [])
+    | w :: rest =>
+      match multi e w with
+      | (e', .error x) => (e', .error x)
+      | (e', .ok fs) =>
+        match many e' rest with
+        | (e'', .error x) => (e'', .error x)
+        | (e'', .ok gs) => (e'', .ok (fs ++ gs))
+  match ctx, ws with
+  | "arg", _ => some (if spec then many env ws else expandWords env ws)
+  | "for", _ => some (if spec then many env ws else expandWords env ws)
+  | "arr", _ => some (if spec then many env ws else expandWords env ws)
+  | "asg", [w] => some (obsSingle (expandWordSingle env w))
+  | "exp", [w] => some (obsSingle (expandWordSingle env w))
+  | "here", [w] => (wordToText w).map (fun ts => obsSingle (expandTextJoined env (mkText ts)))
+  | _, _ => none
+
+def showRVal (o : Option (List Char)) : String :=
+  match o with
+  | some v => encChars v
+  | none => "U"
+
+/-- `read`: a read-only target keeps its value and makes the exit status 2 -/
+def obsR (env : Env) (found : Bool) (vals : List (List Char)) : String :=
   let names := (List.range vals.length).map (fun k => s!"v{k+1}")
-  s!"st={if st then 0 else 1} v=" ++ ",".intercalate ((names.zip vals).map (fun (n, v) => n ++ ":" ++ encChars v))
+  let isRo := fun (n : String) => match env.getVar n with | some v => v.readOnly | none => false
+  let anyRo := names.any isRo
+  let shown := (names.zip vals).map (fun (n, v) =>
+    n ++ ":" ++ (if isRo n then showRVal (env.getScalar n) else encChars v))
+  s!"st={if anyRo then 2 else if found then 0 else 1} v=" ++ ",".intercalate shown
+
+def showSynErr : SynErr → String
+  | .emptyParam => "EmptyParam"
+  | .invalidParam => "InvalidParam"
+  | .unclosedParam => "UnclosedParam"
+  | .multipleModifier => "MultipleModifier"
+  | .invalidModifier => "InvalidModifier"
+  | .nonPortable => "NonPortableParamModifier"
+
+def litTokens (cs : List Char) : List String := cs.map (fun c => "L" ++ encChars [c])
+
+/-- observation of a `P` case: the word `${<src>` as the lexer reads it -/
+def obsP (portable : Bool) (src : List Char) : String :=
+  match lexBraced portable src with
+  | .error e => "err:" ++ showSynErr e
+  | .ok b =>
+    let m := match b.modifier with
+      | .none => []
+      | .length => ["len"]
+      | .switch colon act w => [s!"sw{if colon then ":" else ""}{act}"] ++ litTokens w
+      | .trim side long w => [s!"tr{side}{if long then side.toString else ""}"] ++ litTokens w
+    "ok:" ++ " ".intercalate (["{" ++ String.ofList b.id] ++ m ++ ["}"] ++ litTokens b.rest)
 
 def showWs : String :=
   ",".intercalate (whitespaceTable.map (fun r => s!"{r.1}-{r.2}"))
@@ -222,16 +306,23 @@ def runLine (line : String) : String :=
       | none => "bad-case\t-"
       | some (env, ro) =>
         if kind = "W" then
-          match parseWord (words r) with
+          match parseWords (words r) with
           | none => "bad-case\t-"
-          | some w => obsW (expandWordMultiple env w) ++ "\t=" ++ obsW (specExpandWordMultiple env w)
+          | some ws =>
+            match runCtx false ro.ctx env ws, runCtx true ro.ctx env ws with
+            | some a, some b => obsW a ++ "\t=" ++ obsW b
+            | _, _ => "bad-case\t-"
+        else if kind = "P" then
+          match decChars r with
+          | none => "bad-case\t-"
+          | some src => obsP ro.portable src ++ "\t-"
         else if kind = "R" then
           match decChars r with
           | none => "bad-case\t-"
           | some input =>
             let (text, found) := readInput ro.raw input
             let ifs := match env.getScalar "IFS" with | some s => Ifs.new s | none => Ifs.default
-            obsR found (readAssign ifs text (ro.n - 1)) ++ "\t=" ++ obsR found (specRead ifs text (ro.n - 1))
+            obsR env found (readAssign ifs text (ro.n - 1)) ++ "\t=" ++ obsR env found (specRead ifs text (ro.n - 1))
         else "bad-case\t-"
     | [] => "bad-case\t-"
   | _ => "bad-case\t-"
